@@ -61,7 +61,7 @@ pub trait ExtractAttribute {
             let attr_names = self.attr_names().to_strings();
             let core_loop = self.core_loop();
             quote!(
-                #(#attr_names)|* if __attr.path().leading_colon.is_none() => {
+                #(#attr_names)|* => {
                     match ::darling::util::parse_attribute_to_meta_list(__attr) {
                         ::darling::export::Ok(__data) => {
                             match ::darling::export::NestedMeta::parse_meta_list(__data.tokens) {
